@@ -612,6 +612,9 @@ func (f *memFile) ReadAt(p []byte, off int64) (n int, err error) {
 	if f.node == nil || f.fs == nil {
 		return 0, os.ErrClosed
 	}
+	if off < 0 {
+		return 0, fs.ErrInvalid
+	}
 	if off >= int64(len(f.node.data)) {
 		return 0, io.EOF
 	}
@@ -622,16 +625,21 @@ func (f *memFile) Seek(offset int64, whence int) (int64, error) {
 	if f.node == nil || f.fs == nil {
 		return 0, os.ErrClosed
 	}
+	var abs int64
 	switch whence {
 	case io.SeekStart:
-		f.offset = offset
+		abs = offset
 	case io.SeekCurrent:
-		f.offset += offset
+		abs = f.offset + offset
 	case io.SeekEnd:
-		f.offset = int64(len(f.node.data)) + offset
+		abs = int64(len(f.node.data)) + offset
 	default:
 		return 0, errors.New("invalid whence")
 	}
+	if abs < 0 {
+		return 0, fs.ErrInvalid
+	}
+	f.offset = abs
 	return f.offset, nil
 }
 
@@ -642,7 +650,14 @@ func (f *memFile) Write(p []byte) (n int, err error) {
 	if f.openMode&os.O_APPEND != 0 && f.openMode&os.O_RDWR != 0 && f.openMode&os.O_WRONLY != 0 {
 		return 0, errors.New("file not opened in write mode")
 	}
+	if len(p) == 0 {
+		return 0, nil
+	}
 	if f.offset+int64(len(p)) > int64(len(f.node.data)) {
+		if hole := f.offset - int64(len(f.node.data)); hole > 0 {
+			// seeking past the end and writing leaves a hole that reads as zeros
+			f.node.data = append(f.node.data, make([]byte, hole)...)
+		}
 		f.node.data = append(f.node.data[:f.offset], p...)
 	} else {
 		copy(f.node.data[f.offset:], p)
